@@ -36,7 +36,7 @@ def run(check):
     # the parameters left over -- also none at all -- are what the result has: apply_params rebuilds through
     # UpgradedSignature.replace(parameters=...), which must take the list as given (shared with C14.R3 / C09.R2)
     from ..rules_classes import rule_replace_and_slots
-    check.run_rule('C03.R7', lambda c: rule_replace_and_slots(c, 'C03.R7', classes=['UpgradedSignature']))
+    check.run_rule('C03.R7', lambda c: rule_replace_and_slots(c, 'C03.R7', classes=['UpgradedSignature'], only_base_overrides=True))
     check.run_rule('C03.R3', lambda c: rule_mask_consume(c, model(), 'C03.R3'))
     check.run_rule('C03.R5', lambda c: rule_mask_hide(c, model(), 'C03.R5', None))
     from ..rules_defaults import rule_neutral_defaults
